@@ -33,6 +33,10 @@ CHECKS = {
    tech='property-based differential testing of generated LAT=2 lattices + metamorphic periodicity relation',
    text='Generated hexagonal prisms (regular/irregular, tilted, 6 or 8 planes, oblique axes, any listing order allowed by the convention) are located by unit-prism membership in the basis implied by the construction; homogeneous fills must be periodic in the output.',
    note='Trusted: hexagonal index convention as restated in the property; with six planes the axis is kept orthogonal (conventional component otherwise).'),
+ 'C08': dict(cat='exploration', ref='5/C08',
+   tech='property-based testing: generated decks x option combinations, strict-reader validity predicate over the written file; fixed corpus replay of the shipped decks',
+   text='Decks from all generators (biased toward pruning interactions: empty fillers, unions of empties, duplicate / unused / flagged surfaces) are converted under every option combination; the written file is parsed by a strict reader of the emitted dialect and must satisfy one validity clause per sentence of the statement.',
+   note='Trusted: the harness reader encodes the dialect the writer emits; a crash on a generated (valid) deck is reported in a separate bucket.'),
 }
 
 PENDING = {}
